@@ -62,6 +62,52 @@ try:
     left = set(os.listdir(d))
     if "ign.o" in left or not {"versioned.txt", "sub", ".bzrignore"} <= left:
         verdict(True, "ignored-only run deleted the wrong set", observed=sorted(left))
-    verdict(False, "no failing scenario")
+    # every combination of the three categories (and dry run) on a layout with versioned, unknown, ignored and detritus files at the top
+    # level and inside a versioned directory, an unknown directory, an ignored directory and a nested branch: exactly the unversioned
+    # paths of the requested categories go, nothing versioned, no directory holding versioned files, not the nested branch
+    import itertools as _it
+
+    def listing(d_):
+        out = set()
+        for r_, dirs_, files_ in os.walk(d_):
+            dirs_[:] = [x for x in dirs_ if x != ".bzr" or r_ != d_]
+            for n_ in files_ + dirs_:
+                rel = os.path.relpath(os.path.join(r_, n_), d_)
+                if rel != ".bzr" and not rel.startswith(".bzr/"):
+                    out.add(rel)
+        return out
+
+    n_enum = 0
+    for unknown, ignored_, detritus, dry in _it.product((False, True), repeat=4):
+        n_enum += 1
+        d, wt = mk("e%d" % n_enum)
+        for f_ in ("v.txt", "vd/v2.txt", "u.txt", "vd/u2.txt", "ud/x", "i.o", "vd/i2.o", "igd/y", "j.tmp", "vd/j2~", "c.THIS"):
+            put(d, f_)
+        put(d, ".bzrignore", b"*.o\nigd\n")
+        wt.add(["v.txt", "vd", "vd/v2.txt", ".bzrignore"]); wt.commit("c", committer="t <t@e.x>")
+        os.mkdir(os.path.join(d, "nb"))
+        controldir.format_registry.make_controldir("2a").initialize(os.path.join(d, "nb")).create_repository()
+        before = listing(d)
+        ct.clean_tree(d, unknown=unknown, ignored=ignored_, detritus=detritus, dry_run=dry, no_prompt=True)
+        after = listing(d)
+        gone = set()
+        if not dry:
+            if unknown:
+                gone |= {"u.txt", "vd/u2.txt", "ud", "ud/x", "j.tmp", "c.THIS"}   # detritus files that no ignore rule matches are unknown files too
+            if ignored_:
+                gone |= {"i.o", "vd/i2.o", "igd", "igd/y", "vd/j2~"}             # *~ is matched by the default user ignore rules
+            if detritus:
+                gone |= {"j.tmp", "vd/j2~", "c.THIS"}
+        want = before - gone
+        if after != want:
+            verdict(True, "clean_tree deleted a different set than the requested categories",
+                    input=dict(unknown=unknown, ignored=ignored_, detritus=detritus, dry_run=dry),
+                    observed="wrongly deleted %s; wrongly kept %s" % (sorted(want - after), sorted(after - want)))
+        for keep in ("v.txt", "vd/v2.txt", ".bzrignore", "nb", "vd"):
+            if keep not in after and not (keep == "nb" and False):
+                verdict(True, "clean_tree deleted a versioned path, a directory with versioned files or a nested branch",
+                        input=dict(unknown=unknown, ignored=ignored_, detritus=detritus, dry_run=dry), observed=keep)
+        shutil.rmtree(d, ignore_errors=True)
+    verdict(False, "no failing scenario (%d category combinations)" % n_enum)
 finally:
     shutil.rmtree(base, ignore_errors=True)
